@@ -24,7 +24,7 @@ pub fn registry() -> &'static [CheckDef] {
         CheckDef {
             id: "C20",
             level: "fault_enumeration",
-            rule: "Two generated databases (all column types, NULLs, index, UNIQUE, view) are saved in binary, compressed, JSON and SQL-dump form (8 valid files). Section A enumerates EVERY byte offset 0..=len of every file and applies at that offset: truncation, 0x00, 0xFF, bit flips (2 in quick, all 8 in thorough), every 32/64-bit little-endian length overwrite from {0, 1, 2^31-1, 2^32-1, 2^63-1, 2^63, 2^64-1}, byte deletion and insertion; each damaged file is loaded through the format's loader and (header region) through the sniffing Database::load. Section B loads random byte strings, valid-header+random-tail, multi-byte edits, splices and block repetitions. Monitor per load: catch_unwind, largest single allocation request seen by a counting global allocator (limit 64 MiB + 16 x file size), process abort / 20 s CPU budget via the shard runner. distinct = (format, mutation kind, loader, loaded|error).",
+            rule: "Two generated databases (all column types, NULLs, index, UNIQUE, view) are saved in binary, compressed, JSON and SQL-dump form (8 valid files). Section A enumerates EVERY byte offset 0..=len of every file and applies at that offset: truncation, 0x00, 0xFF, all 8 single-bit flips, +-1..3 of the byte, every small value 1..12 (1..40 in thorough), every 32/64-bit little-endian length overwrite from {0, 1, 2^31-1, 2^32-1, 2^63-1, 2^63, 2^64-1}, byte deletion and insertion; each damaged file is loaded through the format's loader and (header region) through the sniffing Database::load. Section B loads random byte strings, valid-header+random-tail, multi-byte edits, splices and block repetitions. Monitor per load: catch_unwind, largest single allocation request seen by a counting global allocator (limit 64 MiB + 16 x file size), process abort / 20 s CPU budget via the shard runner. distinct = (format, mutation kind, loader, loaded|error).",
             floor: 30,
             shards: 16,
             cpu_budget_ms: 20_000,
